@@ -6321,6 +6321,12 @@ mz_bool mz_zip_writer_add_mem_ex_v2(mz_zip_archive * pZip, const char * pArchive
 		return mz_zip_set_error(pZip, MZ_ZIP_ALLOC_FAILED);
 	}
 
+	if ((!(level_and_flags & MZ_ZIP_FLAG_COMPRESSED_DATA)) && (buf_size <= 3)) {
+		/* Tiny buffers are stored, not deflated (see below) -- decide that before the method is written to the headers */
+		level = 0;
+		store_data_uncompressed = MZ_TRUE;
+	}
+
 	if ((!store_data_uncompressed) && (buf_size)) {
 		if (NULL == (pComp = (tdefl_compressor *)pZip->m_pAlloc(pZip->m_pAlloc_opaque, 1, sizeof(tdefl_compressor)))) {
 			return mz_zip_set_error(pZip, MZ_ZIP_ALLOC_FAILED);
